@@ -1,17 +1,25 @@
 """C02 — the parsed DOM is exactly what a well-formed source denotes, for every spelling of that source.
 
-Oracle (implementation): abstract sheets from c02_gen.gen_sheet are rendered canonically and in several random
-spellings; (1) every spelling must give the same DOM projection as the canonical rendering (metamorphic),
-(2) the projection must agree with what the AST says on its own (rule kinds in order, selector specificities,
-declaration names / component counts / priorities, import targets, namespace bindings, page selector and margin
-boxes, comments), (3) parseComments=False removes exactly the comments, validate=False changes nothing.
-The Lean side (Props/C02.lean) is stated over the structure kernel and added when that kernel is merged.
+model:    lean/CssVerif/Model/Struct.lean (K2, by C04), Model/AtRules.lean (setters of the at-rules that are opaque in K2),
+          Model/SheetSpec.lean (abstract sheet, spelled sheet, erase, render, DOM projection), Model/Normalize.lean
+theorems: lean/CssVerif/Props/C02.lean (T2.2 parse_render, spelling_invariance, T2.1 locality, T2.3 comments_off, …)
+tie:      (a) translator: MarginRule.margins -> Gen/C02Margins.lean
+          (b) `corr_struct`: abstract sheets (c02_gen) x structure-level spellings (c02_struct): render(spelled sheet) in Lean
+              = tokens of the real tokenizer on the text; projSheet(parseSheet(tokens)) = the abstract sheet; = the
+              projection of the real DOM (opaque token lists are given to the real sub-parsers)
+          (c) `corr_normalize`: helper.normalize on generated strings
+oracle:   independent of the model (`oracle`): abstract sheets rendered canonically and in several random text spellings;
+          (1) every spelling gives the DOM projection of the canonical rendering (metamorphic), (2) the projection agrees
+          with what the AST says on its own (rule kinds in order, specificities, declaration names / component counts /
+          priorities, import targets, namespace bindings, page selector and margin boxes, comments),
+          (3) parseComments=False removes exactly the comments, validate=False changes nothing.
 """
 import logging
 
 from lib.framework import Check
 from lib.pool import run_cases
 from harness import c02_gen as G
+from harness import c02_struct as S
 
 
 import re as _re
@@ -125,6 +133,37 @@ def unescape_names(p):
     return p
 
 
+def lower_page_selectors(p):
+    """projection with the selector of every @page rule lower-cased — only used to recognise the region of known
+    finding C02-page-pseudo-case"""
+    out = []
+    for r in p:
+        if isinstance(r, tuple) and r and r[0] == 'page':
+            out.append((r[0], r[1].lower()) + tuple(r[2:]))
+        elif isinstance(r, tuple) and r and r[0] == 'media':
+            out.append(r[:3] + (lower_page_selectors(r[3]),))
+        else:
+            out.append(r)
+    return out
+
+
+def has_calc(decl):
+    """a value with a calc() whose operator needs the white space around it (+ and -)"""
+    return any(c[0] == 'calc' and c[2] in '+-' for c in decl[1])
+
+
+def without_margin_calc(ast):
+    """the abstract sheet without the margin-box declarations whose value contains calc() — only used to recognise
+    the region of known finding C02-margin-box-space-dropped"""
+    out = []
+    for r in ast:
+        if r[0] == 'page':
+            out.append(r[:3] + ([(m, [d for d in ds if not has_calc(d)]) for m, ds in r[3]],))
+        else:
+            out.append(r)
+    return out
+
+
 def strip_comments(p):
     """remove comment entries from a projection (for comparing spellings that differ in comments)"""
     if isinstance(p, list):
@@ -216,23 +255,171 @@ class C02(Check):
     sources = ('cssutils/css/cssstylesheet.py', 'cssutils/css/cssstylerule.py', 'cssutils/css/selector.py',
                'cssutils/css/cssstyledeclaration.py', 'cssutils/css/property.py', 'cssutils/css/value.py',
                'cssutils/css/cssmediarule.py', 'cssutils/css/cssimportrule.py', 'cssutils/css/cssnamespacerule.py',
-               'cssutils/css/csspagerule.py', 'cssutils/css/marginrule.py', 'cssutils/tokenize2.py')
-    rule = ('abstract sheets (style, @media nested, @import, @namespace, @page with margin boxes, @font-face, @charset, '
-            'unknown at-rules, comments; CSS3 selectors; values of every component kind) x canonical rendering + N random '
-            'spellings (white space, comments, case of case-insensitive parts, quote style, escapes of name characters) x '
-            'parser options; non-trivial = distinct (abstract sheet, spelling) whose text differs from the canonical one')
+               'cssutils/css/csspagerule.py', 'cssutils/css/marginrule.py', 'cssutils/css/cssfontfacerule.py',
+               'cssutils/css/csscharsetrule.py', 'cssutils/css/cssunknownrule.py', 'cssutils/css/selectorlist.py',
+               'cssutils/util.py', 'cssutils/helper.py', 'cssutils/tokenize2.py')
+    rule = ('(1) abstract sheets of the documented grammar (c02_gen: style, @media nested, @import, @namespace, @page with '
+            'margin boxes, @font-face, @charset, unknown at-rules, comments; CSS3 selectors; values of every component kind '
+            'incl. calc()) x structure-level spellings of Model/SheetSpec.lean (c02_struct: S/COMMENT gaps at every gap of '
+            'every statement, case + simple escapes of at-keywords / property names / priority, quote style and url() form of '
+            'strings, stand-alone and optional semicolons) at 5 levels x inner spellings of c02_gen; (2) the same abstract '
+            'sheets x canonical rendering + N random text spellings x parser options (metamorphic oracle); (3) generated '
+            'strings for helper.normalize; (4) a corpus of past harness failures. non-trivial = distinct (abstract sheet, '
+            'spelling) whose text differs from the canonical one')
 
     trusted_base = (
-        'Model/Normalize.lean: hand model of cssutils.helper.normalize (simple-escape removal + ASCII lower-casing), tied '
-        'to the code by differential testing over generated strings each run',
-        'the structure-level clauses (rules / selectors / declarations recovered, comments-off, validate-off) are decided '
-        'on the implementation by exploration until the structure kernel theorem is merged',
+        'Model/Struct.lean (K2, by C04) + Model/AtRules.lean (setters of @import / @namespace / @font-face / @page / margin '
+        'box, @charset encoding) + Model/SheetSpec.lean (`projSheet`, `render`, `erase`): hand-written, tied to the code by '
+        'the correspondence of this run on well-formed sheets: render(spelled sheet) = tokens of the real tokenizer on the '
+        'text; projSheet(parseSheet(tokens)) = the abstract sheet = the projection of the real DOM',
+        'selectors, values and media query lists are opaque: every theorem holds for every oracle that accepts them as '
+        'written; in the correspondence the opaque token lists the model shows are given to the REAL Selector / '
+        'PropertyValue / MediaList, so a difference can only come from the structure level',
+        'MarginRule._setCssText is a ProdParser run; it is modelled on the fragment "@margin {S|COMMENT}* { tokens other '
+        'than at-keywords / INVALID / EOF } }" (Model/AtRules.lean marginBody), `unmodelled` outside of it',
+        'Model/Normalize.lean: hand model of cssutils.helper.normalize, differential testing over generated strings',
+        'the text level (T2.5: tokenize(text of a spelling) = render) is not proved; it is checked on every generated case',
     )
-    assumptions = ('str.lower() = ASCII lower-casing on the generated alphabets (non-ASCII characters used are caseless)',)
+    assumptions = ('str.lower() = ASCII lower-casing on the generated alphabets (non-ASCII characters used are caseless)',
+                   'token lists have EOF only as last token and single-character CHAR tokens (tokenizer invariant, checked '
+                   'by the driver on every request)',
+                   '`@charset`: whether the encoding names a codec stays with the oracle (O.atOk charsetSym)',
+                   'disabling validation changes nothing: decided on the implementation only (the model has no validate '
+                   'parameter)')
+
+    def translate(self, ctx):
+        """`MarginRule.margins` (the at-keywords that open a margin box) -> Gen/C02Margins.lean"""
+        import ast
+        import hashlib
+        import os
+        src = open(os.path.join(ctx.repo, 'cssutils/css/marginrule.py'), encoding='utf-8').read()
+        margins = None
+        for node in ast.walk(ast.parse(src)):
+            if isinstance(node, ast.ClassDef) and node.name == 'MarginRule':
+                for st in node.body:
+                    if isinstance(st, ast.Assign) and any(isinstance(t, ast.Name) and t.id == 'margins' for t in st.targets):
+                        margins = ast.literal_eval(st.value)
+        if not isinstance(margins, list) or not all(isinstance(m, str) for m in margins):
+            raise ValueError('MarginRule.margins: not a list of string literals')
+        h = hashlib.sha256(src.encode()).hexdigest()
+        rows = ['  [%s]%s  -- %s' % (', '.join('0x%X' % ord(c) for c in m), ',' if i < len(margins) - 1 else '', m)
+                for i, m in enumerate(margins)]
+        lines = ['-- GENERATED by tools/harness/c02.py from cssutils/css/marginrule.py (sha256 %s)' % h,
+                 '-- `MarginRule.margins`: the at-keywords that open a margin box inside @page',
+                 'namespace CssVerif.Gen.C02',
+                 'def margins : List (List Nat) := ['] + rows + [']', 'end CssVerif.Gen.C02', '']
+        return {'CssVerif/Gen/C02Margins.lean': '\n'.join(lines)}
 
     def run(self, ctx):
+        ctx.phase(self.run_corpus, ctx)
         ctx.phase(self.corr_normalize, ctx)
+        ctx.phase(self.corr_struct, ctx)
         ctx.phase(self.oracle, ctx)
+
+    def search(self, ctx):
+        """an obligation or the correspondence broke and the quick run found no failing input: the two phases that can
+        show a violation of the implementation, at thorough size"""
+        ctx.tier_counts = 'thorough'
+        ctx.search_mode = True
+        ctx.phase(self.corr_struct, ctx)
+        if not ctx.violations:
+            ctx.phase(self.oracle, ctx)
+
+    # -- corpus: texts kept from past failures of the harness / model --------------------------------------
+    def run_corpus(self, ctx):
+        import json
+        import os
+        from lib.framework import enc
+        path = os.path.join(ctx.verif, 'tools', 'corpus', 'C02', 'sheets.json')
+        if not os.path.exists(path):
+            return
+        texts = [e['text'] for e in json.load(open(path))]
+        toklists = [S.tokenize(t) for t in texts]
+        lines = ['struct ' + (','.join('%s:%s' % (t[0], enc(t[1])) for t in toks) or '-') for toks in toklists]
+        out = ctx.driver(lines) if ctx.model_ok else [None] * len(lines)
+        for text, toks, o in zip(texts, toklists, out):
+            ctx.case(key=('corpus', text), nontrivial=True, kind='corpus', sample={'text': text})
+            if o is None:
+                continue
+            real = real_struct(text)
+            if not o.startswith('['):
+                ctx.disagree('projSheet(parseSheet tokens)/corpus', {'text': text}, real, o[:300])
+                continue
+            mp = model_dom(json.loads(o), toks)
+            if mp != real and drop_rejected_margin_decls(mp) != real:
+                ctx.disagree('projSheet(parseSheet tokens)/corpus', {'text': text}, first_diff(real, mp), None)
+
+    # -- structure level: spelled sheets --------------------------------------------------------------
+    def corr_struct(self, ctx):
+        """abstract sheet x structure-level spelling: (1) the tokens Lean's `render` gives = the tokens of the real
+        tokenizer on the text, (2) model projection of the parse of those tokens = the abstract sheet (the theorem,
+        replayed on real tokens), (3) = the projection of the real DOM (tie of the kernel and of `projSheet`)"""
+        import random
+        rng = ctx.sub_rng('c02-struct')
+        cases = []
+        for i in range(ctx.n(400, 8000)):
+            ast = G.gen_sheet(rng)
+            for level, inner in ((0, 0), (1, 1), (2, 2), (3, 3), (3, 4))[:ctx.n(5, 5)]:
+                seed = rng.getrandbits(32)
+                ss = S.spell_sheet(ast, random.Random(seed), level, inner)
+                if not S.wellformed(ss):
+                    ctx.count('struct-not-core')
+                    continue
+                cases.append((ast, level, seed, ss))
+        self.struct_cases(ctx, cases)
+
+    def struct_cases(self, ctx, cases):
+        from lib.framework import enc
+        import json
+        texts = [S.text(ss) for _, _, _, ss in cases]
+        toklists = [S.tokenize(t) for t in texts]
+        lines = []
+        for (_, _, _, ss), toks in zip(cases, toklists):
+            x = S.sx(ss)
+            lines.append('spelled ' + x)
+            lines.append('erase ' + x)
+            lines.append('struct ' + (','.join('%s:%s' % (t[0], enc(t[1])) for t in toks) or '-'))
+        out = ctx.driver(lines) if ctx.model_ok else [None] * len(lines)
+        for idx, ((ast, level, seed, ss), text, toks) in enumerate(zip(cases, texts, toklists)):
+            rendered, erased, struct = out[3 * idx: 3 * idx + 3]
+            ctx.case(key=('struct', text), nontrivial=level > 0, kind='struct-l%d' % level,
+                     sample={'text': text[:300]} if idx < 3 else None)
+            want = S.erase(ss)
+            real = real_struct(text)
+            if isinstance(real, tuple):
+                ctx.violate('parsing a well-formed sheet returns a DOM', {'text': text}, {'exception': real[1]})
+                continue
+            if rendered is None:
+                continue
+            inp = {'text': text, 'level': level}
+            real_toks = ','.join('%s:%s' % (S.mtype(t[0]), enc(t[1])) for t in toks) or '-'
+            if rendered != real_toks:
+                ctx.disagree('render(spelled sheet) vs tokenizer(text)', inp, real_toks[:400], rendered[:400])
+                continue
+            if not erased.startswith('[') or json.loads(erased) != want:
+                ctx.disagree('erase(spelled sheet)', inp, want, erased[:400])
+                continue
+            if not struct.startswith('['):
+                ctx.disagree('projSheet(parseSheet tokens)', inp, want, struct[:400])
+                continue
+            model = json.loads(struct)
+            got = model_abstract(model, toks)
+            if got != want:
+                # the theorem says these are equal; on real tokens they are not: the text is not what the
+                # abstract sheet says, or the model/driver is wrong
+                ctx.disagree('projSheet(parseSheet(tokenize text)) vs abstract sheet', inp, first_diff(got, want), None)
+                continue
+            mp = model_dom(model, toks)
+            if mp != real and drop_rejected_margin_decls(mp) == real:
+                ctx.violate('the DOM has the declarations of every margin box', {'text': text},
+                            {'first_difference': first_diff(real, mp)}, known='C02-margin-box-space-dropped')
+            elif mp != real:
+                # model and implementation differ on a well-formed sheet whose model parse IS the abstract sheet:
+                # the implementation does not build what the source denotes
+                ctx.violate('the DOM lists, in source order, exactly the rules that were written, each with the '
+                            'selectors and declarations (name, value, priority) of the source',
+                            {'text': text, 'canonical': S.text(S.spell_sheet(ast, __import__('random').Random(0), 0, 0))},
+                            {'first_difference': first_diff(real, mp)})
 
     def corr_normalize(self, ctx):
         from cssutils import helper
@@ -285,7 +472,10 @@ class C02(Check):
             got, want = summary(base[1]), expected_summary(ast)
             ctx.case(key=('canon', canon_text), nontrivial=True, kind='canonical',
                      sample={'canonical': canon_text[:300]})
-            if got != want:
+            if got != want and got == expected_summary(without_margin_calc(ast)):
+                ctx.violate('the DOM has the declarations of every margin box', {'text': canon_text},
+                            {'dom_summary': first_diff(got, want)}, known='C02-margin-box-space-dropped')
+            elif got != want:
                 ctx.violate('the DOM lists, in source order, exactly the rules that were written (kinds, specificities, '
                             'declaration names / component counts / priorities, import targets, namespace bindings, page '
                             'selectors and margin boxes, comments)', {'text': canon_text, 'ast': ast},
@@ -303,6 +493,9 @@ class C02(Check):
                 if a != b and unescape_names(a) == unescape_names(b):
                     ctx.violate('same DOM under CSS escapes of ordinary name characters', {'text': text, 'canonical': canon_text},
                                 {'first_difference': first_diff(b, a)}, known='C02-simple-escapes-kept')
+                elif a != b and lower_page_selectors(unescape_names(a)) == lower_page_selectors(unescape_names(b)):
+                    ctx.violate('same DOM under letter case of the pseudo-page name', {'text': text, 'canonical': canon_text},
+                                {'first_difference': first_diff(b, a)}, known='C02-page-pseudo-case')
                 elif a != b:
                     clause = ('the result is the same for every way of writing the sheet (white space, comments, case of '
                               'case-insensitive parts, quote style, escapes of name characters)')
@@ -318,6 +511,13 @@ class C02(Check):
 
     def known(self, ctx, finding):
         w = finding['witness']['data']
+        if finding['id'] == 'C02-margin-box-space-dropped':
+            a = work({'texts': [(w['text'], True, True), (w['same_declaration_in_page_block'], True, True)]})
+            if a[0][0] != 'ok' or a[1][0] != 'ok':
+                return True
+            margin, plain = a[0][1][0], a[1][1][0]
+            # the declaration survives in the page block itself but not in the margin box
+            return len(plain[2]) == 1 and margin[3] and len(margin[3][0][1]) == 0
         a = work({'texts': [(w['canonical'], True, True), (w['text'], True, True)]})
         return a[0][0] == 'ok' and a[1][0] == 'ok' and a[0][1] != a[1][1]
 
@@ -331,6 +531,219 @@ class C02(Check):
                 ctx.violate(data.get('clause'), w, {'projections': a})
         else:
             self.run(ctx)
+
+
+def _cu():
+    import cssutils
+    cssutils.log.setLevel(logging.FATAL)
+    cssutils.log.raiseExceptions = False
+    return cssutils
+
+
+def _sel_items(sel):
+    def val(v):
+        if isinstance(v, str):
+            return v
+        if isinstance(v, tuple):
+            return '|'.join(map(str, v))
+        return getattr(v, 'cssText', repr(type(v)))
+    return [[i.type, val(i.value)] for i in sel.seq]
+
+
+def _sel_proj(sel):
+    """comment- and white-space-insensitive view of a Selector (items + specificity)"""
+    items, spec = proj_selector(sel)
+    return [[list(x) if isinstance(x, tuple) else x for x in it] for it in items] + [list(spec)]
+
+
+def _real_items(style):
+    css = _cu().css
+    out = []
+    for item in style.seq:
+        v = item.value
+        if isinstance(v, css.Property):
+            out.append(['decl', v.name, norm_text(v.propertyValue.cssText), v.priority])
+        elif isinstance(v, css.CSSComment):
+            out.append(['comment', v.cssText[2:-2]])
+        elif isinstance(v, css.CSSUnknownRule):
+            out.append(['unknown', v.cssText])
+        else:
+            out.append(['other', repr(type(v))])
+    return out
+
+
+def _page_sel(r):
+    return norm_text(r.selectorText)
+
+
+def _real_rules(rules):
+    out = []
+    for r in rules:
+        t = r.type
+        if t == r.STYLE_RULE:
+            out.append(['style', [_sel_proj(s) for s in r.selectorList], _real_items(r.style)])
+        elif t == r.COMMENT:
+            out.append(['comment', r.cssText[2:-2]])
+        elif t == r.UNKNOWN_RULE:
+            out.append(['unknown', r.cssText])
+        elif t == r.MEDIA_RULE:
+            out.append(['media', norm_text(r.media.mediaText), r.name, _real_rules(r.cssRules)])
+        elif t == r.FONT_FACE_RULE:
+            out.append(['fontface', _real_items(r.style)])
+        elif t == r.PAGE_RULE:
+            out.append(['page', _page_sel(r), _real_items(r.style),
+                        [[m.margin, _real_items(m.style)] for m in r.cssRules]])
+        elif t == r.IMPORT_RULE:
+            out.append(['import', r.href, norm_text(r.media.mediaText), r.name])
+        elif t == r.NAMESPACE_RULE:
+            out.append(['namespace', r.prefix, r.namespaceURI])
+        elif t == r.CHARSET_RULE:
+            out.append(['charset', r.encoding])
+        else:
+            out.append(['other', t])
+    return out
+
+
+def real_struct(text):
+    """structure-level projection of parseString(text), or ('RAISE', message)"""
+    from lib.framework import time_limit, TimeLimit
+    c = _cu()
+    try:
+        with time_limit(30):
+            sheet = c.CSSParser(fetcher=lambda url: None).parseString(text)
+    except TimeLimit:
+        raise
+    except Exception as e:
+        return ('RAISE', '%s: %s' % (type(e).__name__, e))
+    return _real_rules(sheet.cssRules)
+
+
+def drop_rejected_margin_decls(mp):
+    """the model's DOM without the margin-box declarations whose white-space-free value the real PropertyValue
+    rejects (value None) — the region of known finding C02-margin-box-space-dropped"""
+    out = []
+    for r in mp:
+        if r[0] == 'page':
+            out.append(r[:3] + [[[m, [d for d in ds if not (d[0] == 'decl' and d[2] is None)]] for m, ds in r[3]]])
+        elif r[0] == 'media':
+            out.append(r[:3] + [drop_rejected_margin_decls(r[3])])
+        else:
+            out.append(r)
+    return out
+
+
+def model_abstract(model, toks):
+    """driver reply of `struct` with token positions replaced by [TYPE, hex value]"""
+    from lib.framework import enc
+
+    def tl(ps):
+        return [[S.mtype(toks[p][0]), enc(toks[p][1])] for p in ps]
+
+    def item(i):
+        if i['k'] == 'decl':
+            return {'k': 'decl', 'name': i['name'], 'value': tl(i['value']), 'prio': i['prio']}
+        if i['k'] == 'unknown':
+            return {'k': 'unknown', 'toks': tl(i['toks'])}
+        return i
+
+    def rule(r):
+        k = r['k']
+        if k == 'style':
+            return {'k': 'style', 'sels': [tl(g) for g in r['sels']], 'items': [item(i) for i in r['items']]}
+        if k == 'unknown':
+            return {'k': 'unknown', 'toks': tl(r['toks'])}
+        if k == 'media':
+            return {'k': 'media', 'mq': tl(r['mq']), 'name': r['name'], 'rules': [rule(x) for x in r['rules']]}
+        if k == 'fontface':
+            return {'k': 'fontface', 'items': [item(i) for i in r['items']]}
+        if k == 'page':
+            return {'k': 'page', 'name': r['name'], 'pseudo': r['pseudo'], 'items': [item(i) for i in r['items']],
+                    'margins': [{'name': m['name'], 'items': [item(i) for i in m['items']]} for m in r['margins']]}
+        if k == 'import':
+            return {'k': 'import', 'href': r['href'], 'mq': tl(r['mq']) if r['mq'] is not None else None, 'name': r['name']}
+        return r
+
+    return [rule(r) for r in model]
+
+
+def model_dom(model, toks, ns=None):
+    """the model's projection in the shape of `real_struct`: the opaque token lists the model shows are given to
+    the REAL sub-parsers (Selector, PropertyValue, MediaList, CSSUnknownRule), so a difference can only come from
+    the structure level"""
+    from lib.framework import dec
+    c = _cu()
+    css = c.css
+
+    def tl(ps):
+        # the comment-free lists of the projection can have two S tokens in a row, which the tokenizer never
+        # produces and the sub-parsers are not written for: merged here
+        out = []
+        for p in ps:
+            if toks[p][0] == 'S' and out and out[-1][0] == 'S':
+                continue
+            out.append(toks[p])
+        return out
+
+    def optd(v):
+        return dec(v) if v is not None else None
+
+    def items(its):
+        out = []
+        for i in its:
+            if i['k'] == 'decl':
+                pv = css.PropertyValue()
+                pv.cssText = tl(i['value'])
+                out.append(['decl', dec(i['name']), norm_text(pv.cssText) if pv.wellformed else None,
+                            dec(i['prio']) if i['prio'] is not None else ''])
+            elif i['k'] == 'comment':
+                out.append(['comment', dec(i['body'])])
+            elif i['k'] == 'unknown':
+                out.append(['unknown', css.CSSUnknownRule(cssText=tl(i['toks'])).cssText])
+        return out
+
+    def media(ps):
+        ml = c.stylesheets.MediaList()
+        ml.mediaText = tl(ps)
+        return norm_text(ml.mediaText) if ml.wellformed else None
+
+    if ns is None:
+        ns = {}
+        for r in model:
+            if r['k'] == 'namespace':
+                ns[dec(r['pfx'])] = dec(r['uri'])
+
+    def rules(rs):
+        out = []
+        for r in rs:
+            k = r['k']
+            if k == 'style':
+                sels = []
+                for g in r['sels']:
+                    sel = css.Selector(selectorText=(tl(g), ns))
+                    sels.append(_sel_proj(sel) if sel.wellformed else None)
+                out.append(['style', sels, items(r['items'])])
+            elif k == 'comment':
+                out.append(['comment', dec(r['body'])])
+            elif k == 'unknown':
+                out.append(['unknown', css.CSSUnknownRule(cssText=tl(r['toks'])).cssText])
+            elif k == 'media':
+                out.append(['media', media(r['mq']) if r['mq'] else 'all', optd(r['name']), rules(r['rules'])])
+            elif k == 'fontface':
+                out.append(['fontface', items(r['items'])])
+            elif k == 'page':
+                sel = (optd(r['name']) or '') + ((':' + dec(r['pseudo'])) if r['pseudo'] is not None else '')
+                out.append(['page', sel, items(r['items']), [[dec(m['name']), items(m['items'])] for m in r['margins']]])
+            elif k == 'import':
+                out.append(['import', dec(r['href']), media(r['mq']) if r['mq'] is not None else 'all', optd(r['name'])])
+            elif k == 'namespace':
+                out.append(['namespace', dec(r['pfx']), dec(r['uri'])])
+            elif k == 'charset':
+                out.append(['charset', dec(r['enc'])])
+            else:
+                out.append(['other', r.get('kind')])
+        return out
+
+    return rules(model)
 
 
 def first_diff(a, b, path=''):
